@@ -224,216 +224,190 @@ def coq_list(xs, per_line=4, indent="  "):
 HEADER = "(* GENERATED by tools/gen_coq.py from %s -- do not edit; regenerated on every check run *)\n"
 
 
+# ---------------------------------------------------------------------------------------------
+# Semantic source of the data: `verif_harness dump` RUNS the crate (compiled constants through the
+# verif_hooks feature, everything else through the public API) and prints JSON.  Behaviour-preserving
+# rewrites of the source (const fn masks, arithmetic index maps, restructured parsers) therefore do
+# not disturb the translation.  Only GenUnicode (vendored regex-syntax tables) and GenTypes (the type
+# structure, which is syntax by nature) are still read from source text.
+
+_DUMP = {}
+
+def dump(repo):
+    if "d" in _DUMP:
+        return _DUMP["d"]
+    import json, subprocess
+    exe = os.environ.get("VERIF_DUMP_EXE") or os.path.join(os.path.dirname(os.path.dirname(os.path.abspath(__file__))),
+                                                           "_build", "harness", "debug", "probe")
+    if not os.path.exists(exe):
+        raise TieBroken("probe binary %s not built (the harness does not compile against the current /repo?)" % exe)
+    try:
+        p = subprocess.run([exe], stdout=subprocess.PIPE, stderr=subprocess.PIPE, timeout=120)
+    except Exception as e:
+        raise TieBroken("probe failed to run: %r" % e)
+    if p.returncode != 0:
+        raise TieBroken("probe exited with %d: %s" % (p.returncode, p.stderr.decode("utf-8", "replace")[-300:]))
+    try:
+        d = json.loads(p.stdout.decode())
+    except Exception as e:
+        raise TieBroken("probe output is not JSON: %r" % e)
+    _DUMP["d"] = d
+    return d
+
+
+PIECES = ["Rabbit", "Cat", "Dog", "Horse", "Camel", "Elephant"]
+DIRS = ["Up", "Right", "Down", "Left"]
+M64 = (1 << 64) - 1
+
+
 def gen_masks(repo):
-    src = strip_comments(read(os.path.join(repo, "src/bit_mask.rs")))
-    env = parse_consts(src)
+    d = dump(repo)
+    env = d["masks"]
     need = ["LEFT_COLUMN_MASK", "RIGHT_COLUMN_MASK", "TOP_ROW_MASK", "BOTTOM_ROW_MASK",
             "P1_PLACEMENT_MASK", "P2_PLACEMENT_MASK", "LAST_P1_PLACEMENT_MASK",
             "LAST_P2_PLACEMENT_MASK", "TRAP_MASK", "P1_OBJECTIVE_MASK", "P2_OBJECTIVE_MASK"]
     for k in need:
         if k not in env:
-            raise TieBroken("bit_mask.rs: constant %s not found" % k)
-    csrc = strip_comments(read(os.path.join(repo, "src/constants.rs")))
-    cenv = parse_consts(csrc)
-    for k in ["BOARD_WIDTH", "BOARD_HEIGHT"]:
-        if k not in cenv:
-            raise TieBroken("constants.rs: %s not found" % k)
-    ssrc = strip_comments(read(os.path.join(repo, "src/square.rs")))
-    senv = parse_consts(ssrc)
-    if "ASCII_LETTER_A" not in senv:
-        raise TieBroken("square.rs: ASCII_LETTER_A not found")
-    # the macros of bit_manip.rs: which constant / which shift each one uses
-    msrc = strip_comments(read(os.path.join(repo, "src/bit_manip.rs")))
-    macros = {}
-    for m in re.finditer(r"macro_rules!\s*(\w+)\s*\{\s*\(\$exp:expr\)\s*=>\s*\{([^}]*)\}\s*;?\s*\}", msrc):
-        macros[m.group(1)] = " ".join(m.group(2).split())
-    expect = {
-        "shift_up": r"$exp >> $crate::constants::BOARD_WIDTH",
-        "shift_down": r"$exp << $crate::constants::BOARD_WIDTH",
-        "shift_left": r"$exp >> 1",
-        "shift_right": r"$exp << 1",
-        "shift_pieces_up": r"shift_up!($exp & !$crate::bit_mask::TOP_ROW_MASK)",
-        "shift_pieces_right": r"shift_right!($exp & !$crate::bit_mask::RIGHT_COLUMN_MASK)",
-        "shift_pieces_down": r"shift_down!($exp & !$crate::bit_mask::BOTTOM_ROW_MASK)",
-        "shift_pieces_left": r"shift_left!($exp & !$crate::bit_mask::LEFT_COLUMN_MASK)",
-    }
-    out = [HEADER % "src/bit_mask.rs, src/constants.rs, src/square.rs, src/bit_manip.rs (macros)",
+            raise TieBroken("probe: mask %s missing" % k)
+    out = [HEADER % "the compiled crate (verif_harness dump: masks, board size, shift macros evaluated on all single bits)",
            "From Coq Require Import NArith.\nOpen Scope N_scope.\n"]
     for k in need:
         out.append("Definition %s : N := %d." % (k, env[k]))
-    for k in ["BOARD_WIDTH", "BOARD_HEIGHT"]:
-        out.append("Definition %s : N := %d." % (k, cenv[k]))
-    out.append("Definition ASCII_LETTER_A : N := %d." % senv["ASCII_LETTER_A"])
-    # shift macros: direction (true = towards higher bit index = `<<`), amount, and excluded mask
-    out.append("\n(* shift macros of bit_manip.rs: (is_shl, amount, mask cleared before shifting) *)")
-    for name in ["up", "right", "down", "left"]:
-        s = macros.get("shift_" + name)
-        sp = macros.get("shift_pieces_" + name)
-        if s is None or sp is None:
-            raise TieBroken("bit_manip.rs: macro shift_%s / shift_pieces_%s not found" % (name, name))
-        m = re.match(r"^\$exp (<<|>>) (\$crate::constants::BOARD_WIDTH|\d+)$", s)
-        if not m:
-            raise TieBroken("bit_manip.rs: macro shift_%s has unexpected body %r" % (name, s))
-        amount = "BOARD_WIDTH" if "BOARD_WIDTH" in m.group(2) else m.group(2)
-        m2 = re.match(r"^shift_(\w+)!\(\$exp & !\$crate::bit_mask::(\w+)\)$", sp)
-        if not m2:
-            raise TieBroken("bit_manip.rs: macro shift_pieces_%s has unexpected body %r" % (name, sp))
-        inner = m2.group(1)
-        if inner not in ("up", "right", "down", "left"):
-            raise TieBroken("bit_manip.rs: shift_pieces_%s calls unknown shift_%s" % (name, inner))
-        if m2.group(2) not in env:
-            raise TieBroken("bit_manip.rs: shift_pieces_%s uses unknown mask %s" % (name, m2.group(2)))
-        out.append("Definition SHIFT_%s : bool * N := (%s, %s)." % (name.upper(), "true" if m.group(1) == "<<" else "false", amount))
-        out.append("Definition SHIFT_PIECES_%s_INNER : bool * N := SHIFT_%s." % (name.upper(), inner.upper()))
-        out.append("Definition SHIFT_PIECES_%s_MASK : N := %s." % (name.upper(), m2.group(2)))
-    # SHIFT_PIECES_x_INNER refers to SHIFT_y which may be defined later: emit in two passes
-    body = "\n".join(out)
-    # reorder: all SHIFT_<dir> first
-    lines = body.split("\n")
-    first = [l for l in lines if re.match(r"^Definition SHIFT_(UP|RIGHT|DOWN|LEFT) ", l)]
-    rest = [l for l in lines if l not in first]
-    idx = next(i for i, l in enumerate(rest) if l.startswith("(* shift macros"))
-    rest[idx + 1:idx + 1] = first
-    return "\n".join(rest) + "\n"
+    out.append("Definition BOARD_WIDTH : N := %d." % d["board_width"])
+    out.append("Definition BOARD_HEIGHT : N := %d." % d["board_height"])
+    out.append("Definition ASCII_LETTER_A : N := %d." % d["ascii_a"])
+    out.append("\n(* shift macros of bit_manip.rs, recovered from their values on the 64 single-bit words (and checked on"
+               "\n   multi-bit probes): (is_shl, amount) and the mask cleared before shifting *)")
+    sh = d["shifts"]
+
+    def plain(is_shl, amount, x):
+        return ((x << amount) & M64) if is_shl else (x >> amount)
+
+    def infer(name):
+        img = sh.get(name)
+        if img is None or len(img) != 64:
+            raise TieBroken("probe: shift macro %s missing" % name)
+        cand = None
+        for b in range(64):
+            if img[b]:
+                if img[b] & (img[b] - 1):
+                    raise TieBroken("shift macro %s maps a single bit to several bits" % name)
+                j = img[b].bit_length() - 1
+                if j == b:
+                    raise TieBroken("shift macro %s does not shift" % name)
+                cand = (j > b, abs(j - b))
+                break
+        if cand is None:
+            raise TieBroken("shift macro %s is constantly zero" % name)
+        return cand, img
+
+    def check_probes(name, k, f):
+        for x, vals in d["shift_probes"]:
+            if f(x) != vals[k]:
+                raise TieBroken("shift macro %s is not the bit-linear function inferred from single bits (word %x)" % (name, x))
+
+    order = ["shift_up", "shift_right", "shift_down", "shift_left", "shift_pieces_up", "shift_pieces_right",
+             "shift_pieces_down", "shift_pieces_left"]
+    plain_of = {}
+    for k, name in enumerate(order[:4]):
+        (is_shl, amount), img = infer(name)
+        for b in range(64):
+            if img[b] != plain(is_shl, amount, 1 << b):
+                raise TieBroken("macro %s is not a plain shift" % name)
+        check_probes(name, k, lambda x: plain(is_shl, amount, x))
+        plain_of[name] = (is_shl, amount)
+        amt = "BOARD_WIDTH" if amount == d["board_width"] and amount != 1 else str(amount)
+        out.append("Definition %s : bool * N := (%s, %s)." % (name.upper(), "true" if is_shl else "false", amt))
+    expected_mask = {"shift_pieces_up": "TOP_ROW_MASK", "shift_pieces_right": "RIGHT_COLUMN_MASK",
+                     "shift_pieces_down": "BOTTOM_ROW_MASK", "shift_pieces_left": "LEFT_COLUMN_MASK"}
+    for k, name in enumerate(order[4:], start=4):
+        (is_shl, amount), img = infer(name)
+        inner = [n for n, v in plain_of.items() if v == (is_shl, amount)]
+        if not inner:
+            raise TieBroken("macro %s does not use one of the four plain shifts" % name)
+        # a named mask that reproduces the macro on every single bit (the expected one first)
+        names = [expected_mask[name]] + [n for n in need if n != expected_mask[name]]
+        chosen = None
+        for mname in names:
+            mv = env[mname]
+            if all(img[b] == plain(is_shl, amount, (1 << b) & ~mv & M64) for b in range(64)):
+                chosen = mname
+                break
+        if chosen is None:
+            raise TieBroken("macro %s is not `shift(x & !MASK)` for any mask of bit_mask.rs" % name)
+        mv = env[chosen]
+        check_probes(name, k, lambda x: plain(is_shl, amount, x & ~mv & M64))
+        out.append("Definition %s_INNER : bool * N := %s." % (name.upper(), inner[0].upper()))
+        out.append("Definition %s_MASK : N := %s." % (name.upper(), chosen))
+    return "\n".join(out) + "\n"
 
 
 def gen_zobrist(repo):
-    src = strip_comments(read(os.path.join(repo, "src/zobrist_values.rs")))
-    env = parse_consts(src)
-    for k in ["INITIAL", "PLAYER_TO_MOVE"]:
-        if k not in env:
-            raise TieBroken("zobrist_values.rs: %s not found" % k)
-    out = [HEADER % "src/zobrist_values.rs",
+    d = dump(repo)
+    out = [HEADER % "the compiled crate (verif_harness dump: Zobrist tables through the verif_hooks feature)",
            "From Coq Require Import NArith List.\nImport ListNotations.\nOpen Scope N_scope.\n"]
-    out.append("Definition INITIAL : N := %d." % env["INITIAL"])
-    out.append("Definition PLAYER_TO_MOVE : N := %d." % env["PLAYER_TO_MOVE"])
-    steps = parse_array(src, "STEP_VALUES")
-    out.append("Definition STEP_VALUES : list N := %s." % coq_list([str(x) for x in steps], 2))
+    out.append("Definition INITIAL : N := %d." % d["INITIAL"])
+    out.append("Definition PLAYER_TO_MOVE : N := %d." % d["PLAYER_TO_MOVE"])
+    out.append("Definition STEP_VALUES : list N := %s." % coq_list([str(x) for x in d["STEP_VALUES"]], 2))
     for name in ["SQUARE_VALUES", "PUSH_VALUES", "POSSIBLE_PULL_VALUES"]:
-        arr = parse_array(src, name)
+        arr = d[name]
+        for row in arr:
+            if len(row) != 64:
+                raise TieBroken("%s: a row has %d entries" % (name, len(row)))
         rows = [coq_list([str(x) for x in row], 3, "    ") for row in arr]
         out.append("Definition %s : list (list N) := [\n  %s ]." % (name, ";\n  ".join(rows)))
     return "\n".join(out) + "\n"
 
 
 def gen_enums(repo):
-    psrc = strip_comments(read(os.path.join(repo, "src/piece.rs")))
-    dsrc = strip_comments(read(os.path.join(repo, "src/direction.rs")))
-    zsrc = strip_comments(read(os.path.join(repo, "src/zobrist.rs")))
-    ysrc = strip_comments(read(os.path.join(repo, "src/display.rs")))
-    pieces = enum_variants(psrc, "Piece")
-    dirs = enum_variants(dsrc, "Direction")
-    if sorted(pieces) != sorted(["Rabbit", "Cat", "Dog", "Horse", "Camel", "Elephant"]):
-        raise TieBroken("enum Piece has unexpected variants %r" % pieces)
-    if sorted(dirs) != sorted(["Up", "Right", "Down", "Left"]):
-        raise TieBroken("enum Direction has unexpected variants %r" % dirs)
-    m = re.search(r"#\[derive\(([^)]*)\)\]\s*pub enum Piece", psrc)
-    if not m or "PartialOrd" not in m.group(1) or "Ord" not in m.group(1):
-        raise TieBroken("enum Piece no longer derives PartialOrd/Ord (strength order is the declaration order)")
-    out = [HEADER % "src/piece.rs, src/direction.rs, src/zobrist.rs, src/display.rs",
+    d = dump(repo)
+    out = [HEADER % "the compiled crate (verif_harness dump: orders, letters, parser tables and index maps observed through the API)",
            "From Coq Require Import NArith List.\nFrom Arimaa Require Import Types.\nImport ListNotations.\nOpen Scope N_scope.\n"]
-    out.append("(* derive(PartialOrd, Ord) on Piece compares declaration positions *)")
-    out.append("Definition piece_rank (k : piece) : N :=\n  match k with %s end." %
-               " | ".join("%s => %d" % (v, i) for i, v in enumerate(pieces)))
-    out.append("Definition dir_rank (d : dir) : N :=\n  match d with %s end." %
-               " | ".join("%s => %d" % (v, i) for i, v in enumerate(dirs)))
-    out.append("Definition PIECE_ALL : list piece := [%s]." % "; ".join(all_array(psrc, "Piece")))
-    out.append("Definition DIR_ALL : list dir := [%s]." % "; ".join(all_array(dsrc, "Direction")))
 
-    # Display letters
-    blk, _ = find_block(psrc, r"impl\s+fmt::Display\s+for\s+Piece\s*\{")
-    arms = dict(match_arms(blk, "Piece"))
-    if sorted(arms) != sorted(pieces):
-        raise TieBroken("Display for Piece does not cover all variants")
-    out.append("Definition piece_letter (k : piece) : N :=\n  match k with %s end." %
-               " | ".join("%s => %d" % (v, char_or_str(arms[v])) for v in pieces))
-    blk, _ = find_block(dsrc, r"impl\s+fmt::Display\s+for\s+Direction\s*\{")
-    arms = dict(match_arms(blk, "Direction"))
-    if sorted(arms) != sorted(dirs):
-        raise TieBroken("Display for Direction does not cover all variants")
-    out.append("Definition dir_letter (d : dir) : N :=\n  match d with %s end." %
-               " | ".join("%s => %d" % (v, char_or_str(arms[v])) for v in dirs))
-    # FromStr tables
-    blk, _ = find_block(psrc, r"impl\s+FromStr\s+for\s+Piece\s*\{")
-    tab = from_str_arms(blk, "Piece")
-    out.append("Definition piece_of_letter_table : list (N * piece) := [%s]." %
-               "; ".join("(%d, %s)" % (c, v) for c, v in tab))
-    blk, _ = find_block(dsrc, r"impl\s+FromStr\s+for\s+Direction\s*\{")
-    tab = from_str_arms(blk, "Direction")
-    out.append("Definition dir_of_letter_table : list (N * dir) := [%s]." %
-               "; ".join("(%d, %s)" % (c, v) for c, v in tab))
-    # display.rs tables
-    blk, _ = find_block(ysrc, r"fn\s+convert_char_to_piece\s*\(")
-    tab = from_str_arms(blk, "Piece")
-    if not re.search(r"let\s+is_p1\s*=\s*c\.is_uppercase\(\)\s*;", blk):
-        raise TieBroken("convert_char_to_piece: `is_p1 = c.is_uppercase()` not found")
-    out.append("Definition diagram_piece_of_letter_table : list (N * piece) := [%s]." %
-               "; ".join("(%d, %s)" % (c, v) for c, v in tab))
-    blk, _ = find_block(ysrc, r"fn\s+convert_piece_to_letter\s*\(")
-    arms = dict(match_arms(blk, "Piece"))
-    if sorted(arms) != sorted(pieces):
-        raise TieBroken("convert_piece_to_letter does not cover all variants")
-    if not re.search(r"if\s+is_p1\s*\{\s*letter\.to_string\(\)\s*\}\s*else\s*\{\s*letter\.to_lowercase\(\)\s*\}", blk):
-        raise TieBroken("convert_piece_to_letter: case selection changed")
-    out.append("Definition diagram_upper_letter (k : piece) : N :=\n  match k with %s end." %
-               " | ".join("%s => %d" % (v, char_or_str(arms[v])) for v in pieces))
-    m = re.search(r"else\s+if\s+((?:idx\s*==\s*\d+\s*(?:\|\|)?\s*)+)\{\s*\"x\"", ysrc)
-    if not m:
-        raise TieBroken("display.rs: trap marker indices not found")
-    traps = [int(x) for x in re.findall(r"idx\s*==\s*(\d+)", m.group(1))]
-    out.append("Definition DIAGRAM_TRAP_INDICES : list N := [%s]." % "; ".join(map(str, traps)))
-    m = re.search(r'regex::Regex::new\(r"([^"]*)"\)', ysrc)
-    if not m:
-        raise TieBroken("display.rs: regex literal not found")
-    rx = m.group(1)
-    out.append("Definition DIAGRAM_HEADER_REGEX : list N := [%s]." % "; ".join(str(ord(c)) for c in rx))
-    m = re.search(r"map_or\(\s*\(\s*(\d+)\s*,\s*(true|false)\s*\)", ysrc) or \
-        re.search(r"None\s*=>\s*\(\s*(\d+)\s*,\s*(true|false)\s*\)", ysrc)
-    if not m:
-        raise TieBroken("display.rs: default (move number, side) not found")
-    out.append("Definition DIAGRAM_DEFAULT_MOVE : N := %s." % m.group(1))
-    out.append("Definition DIAGRAM_DEFAULT_P1 : bool := %s." % m.group(2))
-    neg = re.findall(r'as_str\(\)\s*!=\s*"(.)"', ysrc)
-    if not neg:
-        raise TieBroken("display.rs: silver side letters not found")
-    out.append("Definition DIAGRAM_SILVER_LETTERS : list N := [%s]." % "; ".join(str(ord(c)) for c in neg))
+    def fn_map(name, ty, keys, val):
+        return "Definition %s (k : %s) : N :=\n  match k with %s end." % (
+            name, ty, " | ".join("%s => %s" % (k, val(k)) for k in keys))
 
-    # zobrist index maps
-    def idx_map(fn, allow_panic):
-        blk, _ = find_block(zsrc, r"fn\s+%s\s*\(" % fn)
-        arms = dict(match_arms(blk, "Piece"))
-        if sorted(arms) != sorted(pieces):
-            raise TieBroken("%s: piece_idx map does not cover all variants" % fn)
-        items = []
-        for v in pieces:
-            rhs = arms[v]
-            if rhs.startswith("panic!"):
-                if not allow_panic:
-                    raise TieBroken("%s: unexpected panic arm" % fn)
-                items.append("%s => None" % v)
-            else:
-                items.append("%s => Some %d" % (v, int_lit(rhs)))
-        table = re.search(r"\b([A-Z_]+)\[piece_idx\]\[square\.index\(\)\]", blk)
-        if not table:
-            raise TieBroken("%s: table lookup not found" % fn)
-        return items, table.group(1), blk
+    if sorted(d["piece_order"]) != sorted(PIECES) or sorted(d["dir_order"]) != sorted(DIRS):
+        raise TieBroken("probe: enum variants changed")
+    out.append("(* derive(PartialOrd, Ord) on Piece: the order observed by sorting *)")
+    out.append(fn_map("piece_rank", "piece", PIECES, lambda k: d["piece_order"].index(k)))
+    out.append(fn_map("dir_rank", "dir", DIRS, lambda k: d["dir_order"].index(k)))
+    out.append("Definition PIECE_ALL : list piece := [%s]." % "; ".join(d["piece_all"]))
+    out.append("Definition DIR_ALL : list dir := [%s]." % "; ".join(d["dir_all"]))
+    out.append(fn_map("piece_letter", "piece", PIECES, lambda k: d["piece_letter"][k]))
+    out.append(fn_map("dir_letter", "dir", DIRS, lambda k: d["dir_letter"][k]))
+    out.append("Definition piece_of_letter_table : list (N * piece) := [%s]." % "; ".join("(%d, %s)" % (c, k) for c, k in d["piece_of_letter"]))
+    out.append("Definition dir_of_letter_table : list (N * dir) := [%s]." % "; ".join("(%d, %s)" % (c, k) for c, k in d["dir_of_letter"]))
+    out.append("Definition diagram_piece_of_letter_table : list (N * piece) := [%s]." % "; ".join("(%d, %s)" % (c, k) for c, k in d["diagram_piece_of_letter"]))
+    if d["diagram_gold_mismatch"]:
+        raise TieBroken("diagram parser: owner of a piece letter is not 'ASCII upper case' for code points %r" % d["diagram_gold_mismatch"][:5])
+    out.append(fn_map("diagram_upper_letter", "piece", PIECES, lambda k: d["diagram_upper_letter"][k]))
+    if d["printed_cells"] != 64:
+        raise TieBroken("diagram printer: %d cells" % d["printed_cells"])
+    out.append("Definition DIAGRAM_TRAP_INDICES : list N := [%s]." % "; ".join(map(str, d["trap_indices"])))
+    out.append("Definition DIAGRAM_DEFAULT_MOVE : N := %d." % d["default_move"])
+    out.append("Definition DIAGRAM_DEFAULT_P1 : bool := %s." % ("true" if d["default_p1"] else "false"))
+    if sorted(d["side_letters"]) != [98, 103, 115, 119]:
+        raise TieBroken("diagram header accepts side letters %r (model: g s w b)" % d["side_letters"])
+    out.append("Definition DIAGRAM_SILVER_LETTERS : list N := [%s]." % "; ".join(map(str, sorted(d["silver_letters"], reverse=True))))
+    idx = d["piece_idx"]
 
-    items, table, blk = idx_map("piece_value", False)
-    if table != "SQUARE_VALUES":
-        raise TieBroken("piece_value reads %s" % table)
-    m = re.search(r"piece_idx\s*\+\s*if\s+is_p1\s*\{\s*(\d+)\s*\}\s*else\s*\{\s*(\d+)\s*\}", blk)
-    if not m:
-        raise TieBroken("piece_value: colour offset not found")
-    out.append("Definition square_piece_idx (k : piece) : option N :=\n  match k with %s end." % " | ".join(items))
-    out.append("Definition SQUARE_P1_OFFSET : N := %s.\nDefinition SQUARE_P2_OFFSET : N := %s." % (m.group(1), m.group(2)))
-    items, table, _ = idx_map("push_piece_value", True)
-    if table != "PUSH_VALUES":
-        raise TieBroken("push_piece_value reads %s" % table)
-    out.append("Definition push_piece_idx (k : piece) : option N :=\n  match k with %s end." % " | ".join(items))
-    items, table, _ = idx_map("pull_piece_value", True)
-    if table != "POSSIBLE_PULL_VALUES":
-        raise TieBroken("pull_piece_value reads %s" % table)
-    out.append("Definition pull_piece_idx (k : piece) : option N :=\n  match k with %s end." % " | ".join(items))
+    def opt(v):
+        return "Some %d" % v if v >= 0 else "None"
+    for k in PIECES:
+        if idx[k][0] < 0 or idx[k][1] < 0:
+            raise TieBroken("zobrist piece_value(%s) is not a row of SQUARE_VALUES" % k)
+        if idx[k][2] == -1 or idx[k][3] == -1:
+            raise TieBroken("zobrist push/pull value of %s is not a row of its table" % k)
+    offs = set(idx[k][1] - idx[k][0] for k in PIECES)
+    if len(offs) != 1:
+        raise TieBroken("zobrist piece_value: gold/silver rows are not a constant offset apart")
+    out.append("Definition square_piece_idx (k : piece) : option N :=\n  match k with %s end." % " | ".join("%s => %s" % (k, opt(idx[k][0])) for k in PIECES))
+    out.append("Definition SQUARE_P1_OFFSET : N := 0.")
+    out.append("Definition SQUARE_P2_OFFSET : N := %d." % offs.pop())
+    out.append("Definition push_piece_idx (k : piece) : option N :=\n  match k with %s end." % " | ".join("%s => %s" % (k, opt(idx[k][2])) for k in PIECES))
+    out.append("Definition pull_piece_idx (k : piece) : option N :=\n  match k with %s end." % " | ".join("%s => %s" % (k, opt(idx[k][3])) for k in PIECES))
     return "\n".join(out) + "\n"
 
 
